@@ -23,6 +23,13 @@ Fixpoint erase (s : shp) (v : valO O) {struct s} : valO O :=
              | _ => v end
   | SO s' => match v with VOpt (Some x) => VOpt (Some (erase s' x)) | _ => v end
   end.
+(* lane extraction for the lane-uniformity statements of C01 *)
+Fixpoint leafv (path : list nat) (v : valO O) : res (valO O) :=
+  match path with [] => Ok v | i :: p => match v with VT l => match nth_error l i with Some x => leafv p x | None => Stuck "leafv" end | _ => Stuck "leafv" end end.
+Definition lanes_of (paths : list (list nat)) (r : res (valO O)) : res (valO O) :=
+  rb r (fun v => rb ((fix go (ps : list (list nat)) : res (list (valO O)) := match ps with [] => Ok [] | p :: t => rb (leafv p v) (fun x => rb (go t) (fun xs => Ok (x :: xs))) end) paths) (fun l => Ok (VT l))).
+Definition lanes_from (path : list nat) (rs : list (res (valO O))) : res (valO O) :=
+  rb ((fix go (rs : list (res (valO O))) : res (list (valO O)) := match rs with [] => Ok [] | r :: t => rb r (fun v => rb (leafv path v) (fun x => rb (go t) (fun xs => Ok (x :: xs)))) end) rs) (fun l => Ok (VT l)).
 Definition is_ok {A} (r : res A) : bool := match r with Ok _ => true | _ => false end.
 Definition is_panic {A} (r : res A) : bool := match r with Panic => true | _ => false end.
 Definition rerase (s : shp) (r : res (valO O)) : res (valO O) := match r with Ok v => Ok (erase s v) | e => e end.
